@@ -15,7 +15,15 @@
      X from to                  ->  expand_reps: c/C = copy without/with submatches, o/O = optional copy, S = star; to = number or i
      Q ng | v1 | v2             ->  match_ge ng 0 v1 v2 as 0/1; ng: comma separated slot numbers or "_"; a vector: comma separated
                                     numbers or x (not set)
-     F HEX -> fold, W HEX -> is_word *)
+     F HEX -> fold, W HEX -> is_word
+   engine (coq/C20/Nfa.v) requests, xsre in prefix tokens:
+     e | f | c <cset> | s <n> HEX*n | q a b | l a b | b a (a = an l-spine spelled with the alias of or) | k g b | p b | o g b | r g m n b | u b | m b | x b | w b
+       | n <anchor> | i b | j b      (n-ary forms as spines: (seq a b) = q a q b e ; (or a b) = l a l b f)
+     Y <xsre> | alphabet        ->  "<start> <nsave> <ngi or _> | id:kind:match:rule:n1:n2 ..."  the state table of compile_top;
+                                    kind = A accept, E epsilon, G<anchor>, C<0/1 per alphabet character>; rule n/l/r/g; x = none
+     Z <0|1 search> <xsre> | s [| orders]  ->  the snapshots of loop_tr_ord (orders: per step the state ids in the order the code
+                                    walked searchers1, "," within a step, ";" between steps; absent = insertion order) "i;acc;q=vec q=vec ..." separated by " | ", then " # " and the
+                                    vector regexp-run-offsets returns ("-" none); vec = comma separated positions, x = unset; "!" = fuel *)
 open Model
 open Common
 
@@ -60,6 +68,39 @@ let rec p_sre = function
   | "J" :: r -> let (a, r) = p_sre r in (Case a, r)
   | t :: _ -> raise (Parse ("sre token " ^ t))
   | [] -> raise (Parse "sre: end of input")
+
+let rec take_n n l = if n = 0 then ([], l) else match l with
+  | h :: r -> let (a, b) = take_n (n - 1) r in (n_of_hex h :: a, b)
+  | [] -> raise (Parse "string literal: end of input")
+
+let rec p_x = function
+  | "e" :: r -> (XEps, r)
+  | "f" :: r -> (XFail, r)
+  | "c" :: r -> let (c, r) = p_cset r in (XChr c, r)
+  | "s" :: n :: r -> let (l, r) = take_n (int_of_string n) r in (XStr l, r)
+  | "q" :: r -> let (a, r) = p_x r in let (b, r) = p_x r in (XSeq (a, b), r)
+  | "l" :: r -> let (a, r) = p_x r in let (b, r) = p_x r in (XAlt (a, b), r)
+  | "b" :: r -> let (a, r) = p_x r in (XBar a, r)
+  | "k" :: g :: r -> let (a, r) = p_x r in (XStar (gb g, a), r)
+  | "p" :: r -> let (a, r) = p_x r in (XPlus a, r)
+  | "o" :: g :: r -> let (a, r) = p_x r in (XOpt (gb g, a), r)
+  | "r" :: g :: m :: n :: r ->
+      let (a, r) = p_x r in
+      let n' = if n = "i" then None else Some (nat_of_int (int_of_string n)) in
+      (XRep (gb g, nat_of_int (int_of_string m), n', a), r)
+  | "u" :: r -> let (a, r) = p_x r in (XSub a, r)
+  | "m" :: r -> let (a, r) = p_x r in (XNamed a, r)
+  | "x" :: r -> let (a, r) = p_x r in (XNoCap a, r)
+  | "w" :: r -> let (a, r) = p_x r in (XWord a, r)
+  | "n" :: k :: r -> (XAnc (anchor_of k), r)
+  | "i" :: r -> let (a, r) = p_x r in (XNoCase a, r)
+  | "j" :: r -> let (a, r) = p_x r in (XCase a, r)
+  | t :: _ -> raise (Parse ("xsre token " ^ t))
+  | [] -> raise (Parse "xsre: end of input")
+
+let oi = function None -> "x" | Some n -> string_of_int (int_of_nat n)
+let vec_s (m : nat option list) = if m = [] then "_" else String.concat "," (List.map oi m)
+let anchor_name = function Bos -> "bos" | Eos -> "eos" | Bol -> "bol" | Eol -> "eol" | Bow -> "bow" | Eow -> "eow" | Nwb -> "nwb"
 
 let str_of = function
   | [s] -> if s = "_" then [] else List.map n_of_hex (String.split_on_char ',' s)
@@ -149,6 +190,53 @@ let handle fields =
         if l = [] then "_" else
         String.concat "" (List.map (function
             | RCopy true -> "C" | RCopy false -> "c" | ROptc true -> "O" | ROptc false -> "o" | RStarc -> "S") l)
+    | "Y" :: rest ->
+        (match split_bar [] [] rest with
+         | [x; al] ->
+             let (x, left) = p_x x in
+             if left <> [] then "ERR trailing xsre tokens" else
+             let al = str_of al in
+             let nf = compile_top x in
+             let st i (s : state) =
+               String.concat ":" [
+                 string_of_int i;
+                 (match s.s_kind with
+                  | KAccept -> "A" | KEps -> "E" | KAnchor k -> "G" ^ anchor_name k
+                  | KChar (ci, cs) -> "C" ^ String.concat "" (List.map (fun c -> b2s (cs_mem ci cs c)) al));
+                 oi s.s_match;
+                 (match s.s_rule with RNone -> "n" | RLeft -> "l" | RRight -> "r" | RNgLeft -> "g");
+                 oi s.s_n1; oi s.s_n2 ] in
+             String.concat " "
+               ([string_of_int (int_of_nat nf.n_start); string_of_int (int_of_nat nf.n_nsave);
+                 (if nf.n_ngi = [] then "_" else String.concat "," (List.map (fun n -> string_of_int (int_of_nat n)) nf.n_ngi)); "|"]
+                @ List.mapi st nf.n_tb)
+         | _ -> "ERR fields")
+    | "Z" :: sf :: rest ->
+        (match split_bar [] [] rest with
+         | x :: s :: ords ->
+             let (x, left) = p_x x in
+             if left <> [] then "ERR trailing xsre tokens" else
+             let s = str_of s in
+             let search = gb sf in
+             let nf = compile_top x in
+             (* optional third field: the order in which the code walked searchers1 at every step: steps separated by
+                ";", state ids by ",", "_" = none *)
+             let ords = match ords with
+               | [] -> []
+               | [[o]] -> List.map (fun st -> if st = "_" || st = "" then [] else
+                                      List.map (fun t -> nat_of_int (int_of_string t)) (String.split_on_char ',' st))
+                            (String.split_on_char ';' o)
+               | _ -> raise (Parse "orders field") in
+             (match loop_tr_ord ords search nf s (nat_of_int (List.length s)) O [] None with
+              | None -> "!"
+              | Some tr ->
+                  let snap ((i, p), acc) =
+                    String.concat ";" [string_of_int (int_of_nat i);
+                                       (match acc with None -> "-" | Some m -> vec_s m);
+                                       String.concat " " (List.map (fun (q, m) -> string_of_int (int_of_nat q) ^ "=" ^ vec_s m) p)] in
+                  String.concat " | " (List.map snap tr) ^ " # " ^
+                  (match result_of search s tr with Some m -> vec_s m | None -> "-"))
+         | _ -> "ERR fields")
     | ["F"; h] -> hex_of_n (fold (n_of_hex h))
     | ["W"; h] -> b2s (is_word (n_of_hex h))
     | f -> "ERR unknown request " ^ String.concat " " f
